@@ -129,6 +129,9 @@ def rule_remove_identity_scope(ctx: Ctx) -> None:
     ci = repo.cls("CircuitDAG", DAG)
     labels = {c_.value for x in ast.walk(fn) if isinstance(x, ast.Subscript) and norm(x.value) == "self.node_dict" for c_ in [x.slice] if isinstance(c_, ast.Constant)}
     labels |= {c.args[0].value for c in calls_in(fn) if call_name(c) == "self.node_dict.get" and c.args and isinstance(c.args[0], ast.Constant)}
+    for c in calls_in(fn):
+        if call_attr(c) in ("get_node_by_labels",) and c.args and isinstance(c.args[0], (ast.List, ast.Tuple)):
+            labels |= {e.value for e in c.args[0].elts if isinstance(e, ast.Constant)}
     extra = sorted(l for l in labels if l != "Identity")
     if not extra:
         ctx.ok("identity.scope", m, fn, what='remove_identity only removes nodes labelled "Identity"')
@@ -140,6 +143,48 @@ def rule_remove_identity_scope(ctx: Ctx) -> None:
             f = c.func
             if isinstance(f, ast.Attribute) and norm(f.value) in ("self", "CircuitDAG") and f.attr in ci.methods():
                 preds.append(ci.methods()[f.attr])
+    # an inline predicate on a parameterised rotation: the gate is the identity only if *every* angle of its class is zero (the general
+    # rotation with theta = 0 is diag(1, e^{i(phi + lambda)}), a phase gate)
+    inline = 0
+    om = repo.module("graphiq/circuit/ops.py")
+    for i in [x for x in ast.walk(fn) if isinstance(x, ast.If) and any(call_name(c) == "self.remove_op" for b in x.body for c in calls_in(b))]:
+        classes = [norm(c.args[1]).split(".")[-1] for c in ast.walk(i.test) if isinstance(c, ast.Call) and call_name(c) == "isinstance" and len(c.args) == 2]
+        pcls = [c_ for c_ in classes if c_.startswith("Parameterized") or c_ in ("RX", "RY", "RZ")]
+        if not pcls:
+            continue
+        inline += 1
+        arity = 0
+        for cname in pcls:
+            cd = next((x for x in om.tree.body if isinstance(x, ast.ClassDef) and x.name == cname), None)
+            if cd is None:
+                raise AnalysisError(f"remove_identity: class {cname} not found in ops.py")
+            for a_ in ast.walk(cd):
+                if isinstance(a_, ast.Assign) and norm(a_.targets[0]) == "params" and isinstance(a_.value, ast.Tuple):
+                    arity = max(arity, len(a_.value.elts))
+        tested = set()
+        whole = False
+        for cmp_ in [x for x in ast.walk(i.test) if isinstance(x, ast.Compare) and len(x.ops) == 1 and isinstance(x.ops[0], ast.Eq)]:
+            for side, other in ((cmp_.left, cmp_.comparators[0]), (cmp_.comparators[0], cmp_.left)):
+                if isinstance(side, ast.Subscript) and norm(side.value).endswith(".params") and isinstance(side.slice, ast.Constant) \
+                        and isinstance(other, ast.Constant) and other.value == 0:
+                    tested.add(side.slice.value)
+        for c in [x for x in ast.walk(i.test) if isinstance(x, ast.Call)]:
+            if call_name(c) in ("all", "any", "np.allclose", "np.any", "np.all", "np.count_nonzero") and ".params" in norm(c) and ".params[" not in norm(c):
+                whole = True
+        if whole:
+            ctx.ok("identity.scope", m, i, what="rotation removed only when all of its angles are zero")
+        elif arity and tested and not set(range(arity)) <= tested:
+            ctx.fail("identity.scope", m, i,
+                     f"remove_identity deletes a {'/'.join(pcls)} node when `{short(i.test, 90)}`: only angle(s) {sorted(tested)} of {arity} are tested; the general "
+                     f"rotation with theta = 0 is diag(1, e^(i(phi+lambda))) — S for (0, pi/2, 0), Z for (0, 0, pi) — so a phase gate is stripped from the circuit "
+                     f"(and from the copies every circuit comparison works on)", func="CircuitDAG.remove_identity",
+                     construct=f"remove_identity: rotation removed on angles {sorted(tested)} of {arity}")
+        elif arity and tested:
+            ctx.ok("identity.scope", m, i, what="rotation removed only when all of its angles are zero")
+        else:
+            raise AnalysisError(f"remove_identity: the test `{short(i.test, 80)}` that removes a parameterised rotation was not classified")
+    if not preds and inline:
+        return
     if not preds:
         raise AnalysisError(f"remove_identity also walks {extra} but the predicate deciding the removal was not found")
     for pf in preds:
@@ -532,6 +577,7 @@ def rule_unwrap_source(ctx: Ctx) -> None:
 
 
 KNOCKOUTS = [
+    Knockout("remove-identity-strips-theta-zero-rotations", "graphiq/circuit/circuit_dag.py", sub_once('                if isinstance(self.dag.nodes[node]["op"].noise, NoNoise):\n                    self.remove_op(node)\n', '                if isinstance(self.dag.nodes[node]["op"].noise, NoNoise):\n                    self.remove_op(node)\n        for node in self.get_node_by_labels(["one-qubit"]):\n            op = self.dag.nodes[node]["op"]\n            if isinstance(op, ops.ParameterizedOneQubitRotation) and op.params[0] == 0 and isinstance(op.noise, NoNoise):\n                self.remove_op(node)\n'), "identity.scope", "phase gate"),
     Knockout("copy-rederives-op-params", "graphiq/circuit/circuit_base.py", sub_once("        return copy.deepcopy(self)\n", "        new_circuit = copy.deepcopy(self)\n        for op in new_circuit.sequence():\n            op.params = new_circuit._parameters.get(new_circuit._map.get(id(op)), tuple())\n        return new_circuit\n"), "copy.faithful", "operations of the copy"),
     Knockout("copy-is-shallow", "graphiq/circuit/circuit_base.py", sub_once("        return copy.deepcopy(self)\n", "        return copy.copy(self)\n"), "copy.faithful", "deep-copies"),
     Knockout("grouping-wrapper-without-reg-type", DAG, sub_nth("                                        gate_list, register, reg_type, noise=noise_list\n", "                                        gate_list, register=register, noise=noise_list\n", 0), "group.run-closed", "without the walked register"),
